@@ -33,6 +33,7 @@ pub fn blocks(thorough: bool) -> Vec<Block> {
         b.push(Block::new(Universe::new("U_adv(A_gcm)", A_GCM, 2, 2, false), vec![Cfg::new(0), Cfg::new(X | E)], "{}, x+e"));
         b.push(Block::new(u_kind_pairs(2, 2, false), vec![Cfg::new(0), Cfg::new(X), Cfg::new(X | G | E | NA | NE)], "{}, x, x+g+e+na+ne"));
         b.push(Block::new(u_many(40), some.clone(), "{}, x, g+e, na+ne, x+g+e+na+ne"));
+        b.push(Block::new(u_long_prefix(), vec![Cfg::new(0), Cfg::new(NA | NE)], "{}, na+ne"));
         b.push(Block::new(u_kind_triples(), vec![Cfg::new(0), Cfg::new(X), Cfg::new(X | G | E | NA | NE)], "{}, x, x+g+e+na+ne"));
         b.push(Block::new(u_runs(), neutral.clone(), d32));
     } else {
